@@ -94,9 +94,10 @@ var anchorCache map[string][]string
 // property's anchor list does not name them (each confirmed by reading).
 var extraAnchors = map[string][]string{
 	"C19": {"internal/app/referenceserver/impl.go", "internal/app/referenceserver/raw_response.go", "internal/app/grpcserver/impl.go", "internal/compression/*.go"}, // the uncompressed size is what comes out of the decompressors; the over-limit error reaches the client through the handlers and the first-request pre-read
-	"C18": {"internal/app/referenceserver/impl.go"},                                                                                                                 // grpcStatusTrailers: the Connect error -> gRPC status form
+	"C18": {"internal/app/referenceserver/impl.go", "internal/app/referenceclient/wire_details.go"},                                                                 // grpcStatusTrailers: the Connect error -> gRPC status form
 	"C16": {"internal/tracer/http2.go", "internal/tracer/reader.go"},                                                                                                // the HTTP/2 retry collector completes traces towards the Tracer
 	"C02": {"internal/app/referenceclient/wire_details.go", "internal/app/referenceserver/raw_response.go"},                                                         // every streaming request reaches the reference server's handlers through firstReqCachingStream
+	"C04": {"internal/app/connectconformance/test_trie.go", "internal/printer.go"},                                                                                  // the known-failing / known-flaky markings are trie matches; reference-peer feedback lines reach the runner through safePrinter
 	"C11": {"internal/delimited.go"},                                                                                                                                // the server's start-up response is read with ReadDelimitedMessage: garbage there must become a set-up error, not a crash
 	"C07": {"internal/app/connectconformance/connectconformance.go"},                                                                                                // run() computes the run mode the permutations are filtered by
 	"C05": {"internal/app/connectconformance/test_trie.go"},                                                                                                         // the run/skip filter (filter.apply) is a trie match                                                                            // wire feedback fails a case whose result matched
@@ -649,6 +650,7 @@ func anchoredGeneralRules(p *Prog, r *Report, propID string) {
 	siblingNameWiringRule(p, r, "anchored-name", scope)
 	round6GeneralRules(p, r, scope)
 	round7GeneralRules(p, r, scope)
+	round8GeneralRules(p, r, scope)
 }
 
 // arityGuardRule: in both reference clients' Invoke, the calls of unary,
@@ -764,6 +766,9 @@ func crossPropertyRules(p *Prog, r *Report, propID string) {
 			extra(p, tmp)
 		}
 		for _, extra := range round7Rules[q] {
+			extra(p, tmp)
+		}
+		for _, extra := range round8Rules[q] {
 			extra(p, tmp)
 		}
 		for _, o := range tmp.Obls {
